@@ -234,8 +234,10 @@ fn entity_event_dispatch_x(ne: usize, ka: usize, kb: usize, may_be_dead: bool, w
     let payload: u8 = kani::any();
     ReactCache::schedule_entity_event_reaction::<EvA>(In((target, EvA(payload))), cmds(wp), Res::m_new(&cache), qry(wp));
 
+    // C18 / REACT.md ("If the target entity is despawned, then entity events targeting it will be dropped"):
+    // nothing at all is scheduled on behalf of a dead target - neither its own listeners nor type-wide ones
     let ne_eff = if dead { 0 } else { ne };
-    let total = ne_eff + ka;
+    let total = if dead { 0 } else { ne + ka };
     assert!(captured.len() == total, "C01: entity-scoped listeners of the target for this event type plus type-wide listeners, nothing else");
     let mut k = 0;
     while k < total
@@ -292,6 +294,10 @@ fn entity_event_dispatch_x(ne: usize, ka: usize, kb: usize, may_be_dead: bool, w
 #[kani::stub(core::any::TypeId::of, crate::vh::stub_typeid_of)]
 #[kani::stub(<core::any::TypeId as crate::vh::PEq>::eq, crate::vh::stub_typeid_eq)]
 #[kani::unwind(5)] fn rc_entity_event_dead_2_0_1() { entity_event_dispatch(2, 0, 1, true) }
+#[kani::proof]
+#[kani::stub(core::any::TypeId::of, crate::vh::stub_typeid_of)]
+#[kani::stub(<core::any::TypeId as crate::vh::PEq>::eq, crate::vh::stub_typeid_eq)]
+#[kani::unwind(5)] fn rc_entity_event_dead_1_1_0() { entity_event_dispatch(1, 1, 0, true) }
 
 //-------------------------------------------------------------------------------------------------------------------
 // insertion / mutation (C01)
@@ -661,3 +667,154 @@ fn rc_despawn_dispatch_once() { rc_despawn_dispatch_k(false) }
 #[kani::stub(<core::any::TypeId as crate::vh::PEq>::eq, crate::vh::stub_typeid_eq)]
 #[kani::unwind(4)]
 fn rc_despawn_dispatch_reported_twice() { rc_despawn_dispatch_k(true) }
+
+//-------------------------------------------------------------------------------------------------------------------
+// removal polling (C08)
+//-------------------------------------------------------------------------------------------------------------------
+
+/// C08: one poll turns EVERY removal the environment reports for a tracked component into the reactions of that
+/// entity (entity-scoped removal reactors of that component, then the type-wide removal list), in report order;
+/// nothing for entities that were not reported; the cached buffers are handed back empty.
+fn removal_poll_kernel(type_wide: usize)
+{
+    let mut world = World::new();
+    let mut cache = ReactCache::default();
+    cache.track_removals::<CoA>();
+    let mut ids = [0u8; 8];
+    let rem_a = EntityReactionType::Removal(TypeId::of::<CoA>());
+    let mut_a = EntityReactionType::Mutation(TypeId::of::<CoA>());
+    let e1 = world.spawn(entity_table(&[rem_a], &mut ids, 0)).id();
+    let e2 = world.spawn(entity_table(&[mut_a, rem_a], &mut ids, 1)).id();
+    let e3 = world.spawn(entity_table(&[rem_a], &mut ids, 3)).id();      // not reported: must not react
+    if type_wide > 0
+    {
+        let cr = ComponentReactors{ insertion_callbacks: handle_list(1, &mut ids, 7), mutation_callbacks: Vec::new(), removal_callbacks: handle_list(type_wide, &mut ids, 4) };
+        put2(&mut cache.component_reactors, Some((TypeId::of::<CoA>(), cr)), None);
+    }
+    // the environment reports: React<CoA> removed from e1, then from e2 (E4)
+    let key = bevy::model::cell::type_key::<React<CoA>>();
+    world.m_push_removed(key, e1);
+    world.m_push_removed(key, e2);
+    let mut captured: Vec<ReactionCommand> = Vec::with_capacity(6);
+    capture_start(&mut world, &mut captured);
+
+    cache.schedule_removal_reactions(&mut world);
+
+    let per = 1 + type_wide;
+    assert!(captured.len() == 2 * per, "C08: every reported removal is reacted to: entity-scoped removal reactors plus the type-wide removal list, for EACH reported entity");
+    let mut k = 0;
+    while k < 2 * per
+    {
+        let ent_idx = k / per;
+        let within = k % per;
+        match &captured[k]
+        {
+            ReactionCommand::EntityReaction{ reaction_source, reaction_type, reactor } =>
+            {
+                assert!(*reaction_source == if ent_idx == 0 { e1 } else { e2 }, "C08: reactions carry the entity the component was removed from, in report order");
+                assert!(*reaction_type == rem_a, "C08: removal reactions of that component");
+                let want = if within == 0 { if ent_idx == 0 { ids[0] } else { ids[2] } } else { ids[4 + within - 1] };
+                assert!(*reactor == sysc(want), "C08: the entity's own removal reactor first (not its mutation reactor), then the type-wide removal list");
+            }
+            _ => panic!("C08: removals schedule EntityReaction reactions only"),
+        }
+        k += 1;
+    }
+    assert!(cache.reaction_commands_buffer.len() == 0 && cache.removal_buffer.is_some(), "C11: cached buffers are handed back");
+    // a second poll sees nothing new (each removal is reported once per reader)
+    cache.schedule_removal_reactions(&mut world);
+    assert!(captured.len() == 2 * per, "C08: a removal is reacted to exactly once");
+    let _ = e3;
+    kani::cover!(true, "end reached");
+    std::mem::forget(captured); std::mem::forget(world); std::mem::forget(cache);
+}
+#[kani::proof]
+#[kani::stub(core::any::TypeId::of, crate::vh::stub_typeid_of)]
+#[kani::stub(<core::any::TypeId as crate::vh::PEq>::eq, crate::vh::stub_typeid_eq)]
+#[kani::unwind(4)]
+fn rc_removal_poll_entity_scoped_only() { removal_poll_kernel(0) }
+#[kani::proof]
+#[kani::stub(core::any::TypeId::of, crate::vh::stub_typeid_of)]
+#[kani::stub(<core::any::TypeId as crate::vh::PEq>::eq, crate::vh::stub_typeid_eq)]
+#[kani::unwind(4)]
+fn rc_removal_poll_with_type_wide() { removal_poll_kernel(1) }
+
+/// C08, minimal form: two entities each with one entity-scoped removal reactor and NO type-wide reactor for the
+/// component; the environment reports both removals; one poll must react to BOTH.
+#[kani::proof]
+#[kani::stub(core::any::TypeId::of, crate::vh::stub_typeid_of)]
+#[kani::stub(<core::any::TypeId as crate::vh::PEq>::eq, crate::vh::stub_typeid_eq)]
+#[kani::unwind(3)]
+fn rc_removal_poll_two_entities_minimal()
+{
+    let mut world = World::new();
+    let mut cache = ReactCache::default();
+    cache.track_removals::<CoA>();
+    cache.removal_buffer = Some(Vec::with_capacity(4));          // the cached buffer of an earlier poll
+    cache.reaction_commands_buffer = Vec::with_capacity(4);
+    let mut ids = [0u8; 8];
+    let rem_a = EntityReactionType::Removal(TypeId::of::<CoA>());
+    let e1 = world.spawn(entity_table(&[rem_a], &mut ids, 0)).id();
+    let e2 = world.spawn(entity_table(&[rem_a], &mut ids, 1)).id();
+    let key = bevy::model::cell::type_key::<React<CoA>>();
+    world.m_push_removed(key, e1);
+    world.m_push_removed(key, e2);
+    let mut captured: Vec<ReactionCommand> = Vec::with_capacity(4);
+    capture_start(&mut world, &mut captured);
+
+    cache.schedule_removal_reactions(&mut world);
+
+    assert!(captured.len() == 2, "C08: every reported removal is reacted to, also when the component has no type-wide reactor");
+    match (&captured[0], &captured[1])
+    {
+        (ReactionCommand::EntityReaction{ reaction_source: s0, reaction_type: t0, reactor: r0 },
+         ReactionCommand::EntityReaction{ reaction_source: s1, reaction_type: t1, reactor: r1 }) =>
+        {
+            assert!(*s0 == e1 && *s1 == e2, "C08: each reaction carries the entity the component was removed from");
+            assert!(*t0 == rem_a && *t1 == rem_a && *r0 == sysc(ids[0]) && *r1 == sysc(ids[1]), "C08: the entities' own removal reactors");
+        }
+        _ => panic!("C08: removals schedule EntityReaction reactions only"),
+    }
+    kani::cover!(true, "end of harness reached");
+    std::mem::forget(captured); std::mem::forget(world); std::mem::forget(cache);
+}
+
+
+/// C18 / C14: an insertion / mutation trigger applied for an entity that no longer exists (despawned between queueing
+/// and applying) schedules nothing - not even the type-wide reactors of that component.
+fn component_dispatch_dead_target(which: u8)
+{
+    let mut world = World::new();
+    let mut cache = ReactCache::default();
+    let mut ids = [0u8; 8];
+    let live = world.spawn_empty().id();
+    let gone = Entity::m_new(live.index(), live.generation() + 1);
+    let dead: bool = kani::any();
+    let target = if dead { gone } else { live };
+    let cr_a = ComponentReactors{ insertion_callbacks: handle_list(1, &mut ids, 0), mutation_callbacks: handle_list(1, &mut ids, 1), removal_callbacks: Vec::new() };
+    put2(&mut cache.component_reactors, Some((TypeId::of::<CoA>(), cr_a)), None);
+    let mut captured: Vec<ReactionCommand> = Vec::with_capacity(4);
+    capture_start(&mut world, &mut captured);
+    let wp = &mut world as *mut World;
+    if which == 0 { ReactCache::schedule_insertion_reaction::<CoA>(In(target), ResMut::m_new(&mut cache), cmds(wp), qry(wp)); }
+    else { ReactCache::schedule_mutation_reaction::<CoA>(In(target), ResMut::m_new(&mut cache), cmds(wp), qry(wp)); }
+    if dead { assert!(captured.len() == 0 && world.m_queued() == 0, "C18/C14: no reaction is scheduled on behalf of an entity that no longer exists"); }
+    else
+    {
+        assert!(captured.len() == 1, "C01: a live entity without entity-scoped reactors gets exactly the type-wide reactors of that kind");
+        if let ReactionCommand::EntityReaction{ reaction_source, reactor, .. } = &captured[0] { assert!(*reaction_source == live && *reactor == sysc(ids[which as usize])); }
+    }
+    kani::cover!(dead, "target gone");
+    kani::cover!(!dead, "target alive");
+    std::mem::forget(captured); std::mem::forget(world); std::mem::forget(cache);
+}
+#[kani::proof]
+#[kani::stub(core::any::TypeId::of, crate::vh::stub_typeid_of)]
+#[kani::stub(<core::any::TypeId as crate::vh::PEq>::eq, crate::vh::stub_typeid_eq)]
+#[kani::unwind(4)]
+fn rc_insertion_dead_target() { component_dispatch_dead_target(0) }
+#[kani::proof]
+#[kani::stub(core::any::TypeId::of, crate::vh::stub_typeid_of)]
+#[kani::stub(<core::any::TypeId as crate::vh::PEq>::eq, crate::vh::stub_typeid_eq)]
+#[kani::unwind(4)]
+fn rc_mutation_dead_target() { component_dispatch_dead_target(1) }
